@@ -307,6 +307,8 @@ func execOp(op string) vlib.Res {
 		return execL3V6(a)
 	case "nss6":
 		return execNss6(a)
+	case "cb":
+		return execCB(a)
 	}
 	if fc == nil {
 		return vlib.Res{Impl: "nocache"}
